@@ -118,11 +118,6 @@ def check_case(res, T, v, bt=None):
     if not native_ok(T, v) or 'default-real-huge' in feats0:
         res.see('skipped:real-outside-float-range')
         return
-    if 'absent-optional-emptyable-record' in feats0 and huge_real_default_anywhere(T):
-        # the pinned emptyable-optional finding materialises the absent record, DEFAULTs included: the value then
-        # holds a REAL no float can represent, which the native form (a float) is not expected to carry
-        res.see('skipped:huge-real-default-inside-a-record-the-pinned-finding-materialises')
-        return
     # ---- arm 1: native round trip
     case = ('c17', T, v, 'native')
     feats = feats0 | {'arm:native'}
